@@ -35,6 +35,24 @@ CLAIMED = {
             'definitions regenerated from the source on every run; the implementation is executed exhaustively on the same finite domains and '
             'K_n / the re-exported special functions are compared with the analytic derivative on a grid.',
             'Lean kernel (decide +kernel, no axioms beyond propext/Quot.sound); tr_dirac translator; scipy.special values and autograd special-function vjps by contract.', '5 C20'),
+    'C14': ('Lean 4 theorems about a generic timeslice model (pointwise arithmetic, NaN pass, roll/thin/symmetrise/Hankel index maps) + model/impl correspondence on central values + statement oracle on the implementation incl. no-mutation snapshots',
+            'Proof: for every cell type, temporal extent and matrix dimension the model of Corr arithmetic is slice-wise with undefined slices propagating, '
+            'and the index transformations are the stated permutations / averages (theorem list in the evidence). The model is run on the central values of '
+            'every generated case and compared with pyerrors; the statement itself (entry = operation on entries, definedness, no mutation of operands or '
+            'arguments, repeated invocation) is evaluated on the implementation with Obs-level equality.',
+            'Lean kernel; standard axioms; Obs arithmetic on entries is C01; generator-bounded search; refusals by Corr\'s own type guards are accepted outcomes (list in driver/props/c14.py).', '5 C14'),
+    'C15': ('Lean 4 theorems about the window builder and the derivative formulas (definedness and padding for every T and pattern) + model/impl correspondence + formula oracle on the implementation',
+            'Proof: the window builder behind every derivative / effective-mass variant is proved to yield exactly padL undefined slices, the formula '
+            'slices, padR undefined slices, and to fail only when every output slice is undefined; per-variant formulas follow. The closed-form variants '
+            'of the model are compared with pyerrors on central values; every variant incl. the cosh/sinh root variants and plateau fit/average is '
+            'checked on the implementation against the documented formula applied with Obs arithmetic (root variants: bisection + implicit derivative).',
+            'Lean kernel; standard axioms; fsolve inside find_root by contract (residual measured); least_squares for plateau(fit) by contract; generator-bounded search.', '5 C15'),
+    'C19': ('exact rational model of _format_uncertainty in Lean compared string-for-string with CPython + Lean theorems on rounding / read-back bounds + statement oracle in exact Fractions',
+            'Proof: rounding to n decimals (ties to even) is within half a unit; value and error read back from the printed form are within half a '
+            'unit of the last printed digit in all three branches (plus the 2^-53 relative rounding of the one floating-point product), the number of '
+            'significant digits shown is sig (sig+1 after a carry). The model runs in exact rational arithmetic and must reproduce str/format of the '
+            'implementation character by character on every generated case; the read-back clause is also evaluated directly on the implementation.',
+            'Lean kernel; standard axioms; np.floor(np.log10(d)) enters as an input with a checked contract; CPython float formatting / parsing trusted.', '5 C19'),
 }
 
 NOT_YET = {}
